@@ -644,11 +644,16 @@ def freshness_native(chk):
                     for k, x in obj.items():
                         yield from variables(x, f'{path}[{k!r}]')
             before = {pth: v.copy() for pth, v in variables(content)}
-            outs = []
-            for _ in range(2):
-                buf = io.BytesIO()
-                sqw_real.build_file(content, ['pixels', 'sample', 'instrument', 'dnd'], bo, 5, buf, 't')
-                outs.append(buf.getvalue())
+            # (the file carries creation times with a resolution of one second: two builds that straddle a tick differ for that
+            # reason alone, so the pair is taken again -- a builder that is not repeatable differs every time)
+            for _attempt in range(4):
+                outs = []
+                for _ in range(2):
+                    buf = io.BytesIO()
+                    sqw_real.build_file(content, ['pixels', 'sample', 'instrument', 'dnd'], bo, 5, buf, 't')
+                    outs.append(buf.getvalue())
+                if outs[0] == outs[1]:
+                    break
             for pth, v in variables(content):
                 if not sc.identical(v, before[pth], equal_nan=True):
                     bad.append(f'byteorder={bo}: builder input {pth} modified by writing the file')
